@@ -266,8 +266,53 @@ func doGen(run *emit.Run, base *env, K []byte, name string, steps []gstep) {
 		}
 		stored = append(stored, emit.Pair(emit.Bytes(a.Key), emit.List(vs), coqClaim(a.Body)))
 	}
+	if strings.HasPrefix(name, "stale") {
+		e.staleTallyProbe(run, name, replay)
+	}
 	run.Count("gen", name)
 	run.Case(fmt.Sprintf("C11.CGen %s %s %s %s", emit.Bytes(K), batches, emit.List(terms), emit.List(stored)), okN > 0 && errN > 0, nil)
+}
+
+// staleTallyProbe characterises, on a discarded fork of the real state, what the end-blocker tally does with the
+// attestations of nonce 1 when some of them sit under a key that is not the key of their body: which entry is
+// executed, where the observed copy is written, and that a second tally executes nothing again.
+func (e *env) staleTallyProbe(run *emit.Run, name string, replay any) {
+	f := e.fork()
+	supply := func() string { return f.in.BankKeeper.GetSupply(f.ctx, "ugrain").Amount.String() }
+	s0 := supply()
+	*f.calls = (*f.calls)[:0]
+	if err := f.tally(chainA); err != nil {
+		run.Count("stale-tally", "tally-error")
+		return
+	}
+	last, _ := f.k.GetLastObservedSkywayNonce(f.ctx, chainA)
+	s1, calls1 := supply(), len(*f.calls)
+	if err := f.tally(chainA); err != nil {
+		run.Count("stale-tally", "second-tally-error")
+		return
+	}
+	if supply() != s1 || len(*f.calls) != calls1 {
+		run.Violate("C11:stale-entry-executed-twice", name+": a second end-blocker tally executed an attestation of an already observed nonce again", replay)
+	}
+	var stale, observed, staleObserved int
+	for _, a := range f.attestations([]string{chainA}) {
+		wk := bytes.Equal(a.Key, realKey(a.Body))
+		if !wk {
+			stale++
+		}
+		if a.Obs {
+			observed++
+			if !wk {
+				staleObserved++
+			}
+		}
+	}
+	switch {
+	case last == 0:
+		run.Count("stale-tally", fmt.Sprintf("no-quorum-under-any-single-key:stalled(stale-entries=%d)", stale))
+	default:
+		run.Count("stale-tally", fmt.Sprintf("executed(last=%d,effect=%v):observed-entries=%d,of-them-under-stale-key=%d,stale-entries-left=%d", last, s0 != s1 || calls1 > 0, observed, staleObserved, stale))
+	}
 }
 
 // ---- generators ----
@@ -387,7 +432,7 @@ func genesisHistory(r *rand.Rand) ([]gstep, string) {
 	name := "genesis"
 	var steps []gstep
 	voters := r.Perm(5)
-	k := 1 + r.Intn(3)
+	k := 1 + r.Intn(4)
 	switch r.Intn(3) {
 	case 0: // plain: k votes, round trip, the rest
 		for _, i := range voters[:k] {
